@@ -498,7 +498,7 @@ def run(rep, tier, seed):
     tlc.sany("FuelShuffle_trace", MODDIR)
     # 1. exhaustive model checking of the reference design: every invariant / action property, per-action coverage
     if thorough:
-        check_model(rep, "FuelShuffle_mc_thorough.cfg", "coreS-depth5")
+        check_model(rep, "FuelShuffle_mc_thorough.cfg", "coreS-depth5")  # flag settings {} and {G,P}; the others: core T
         check_model(rep, "FuelShuffle_mcT.cfg", "coreT-depth4")
     else:
         check_model(rep, "FuelShuffle_mc.cfg", "coreS-depth4")  # three of the four flag settings (all four: thorough, edges)
@@ -506,17 +506,17 @@ def run(rep, tier, seed):
 
     # 2. spec -> code
     if thorough:
-        emit_and_replay(rep, "FuelShuffle_emit.cfg", "coreS-depth3", (("hex", "full", None), ("hex", "third", 40), ("cartesian", "full", 40)), rng)
-        emit_and_replay(rep, "FuelShuffle_emitT.cfg", "coreT-depth3", (("hex", "full", 100), ("hex", "third", 30), ("cartesian", "full", 30)), rng)
+        emit_and_replay(rep, "FuelShuffle_emit.cfg", "coreS-depth3", (("hex", "full", None), ("hex", "third", 25), ("cartesian", "full", 25)), rng)
+        emit_and_replay(rep, "FuelShuffle_emitT.cfg", "coreT-depth3", (("hex", "full", 50), ("hex", "third", 15), ("cartesian", "full", 15)), rng)
     else:
         emit_and_replay(rep, "FuelShuffle_emit.cfg", "coreS-depth3", (("hex", "full", 8), ("hex", "third", 4), ("cartesian", "full", 4)), rng)
 
     # 3. code -> spec
-    plans = [("FuelShuffle_trace_M.cfg", "coreM-hex-full", "hex", "full", 120 if thorough else 36, 150 if thorough else 45)]
+    plans = [("FuelShuffle_trace_M.cfg", "coreM-hex-full", "hex", "full", 100 if thorough else 36, 150 if thorough else 45)]
     if thorough:
         plans += [("FuelShuffle_trace_M.cfg", "coreM-hex-third", "hex", "third", 60, 150),
-                  ("FuelShuffle_trace_N.cfg", "coreN-cartesian", "cartesian", "full", 60, 250),
-                  ("FuelShuffle_trace_N.cfg", "coreN-hex-full", "hex", "full", 30, 250)]
+                  ("FuelShuffle_trace_N.cfg", "coreN-cartesian", "cartesian", "full", 40, 250),
+                  ("FuelShuffle_trace_N.cfg", "coreN-hex-full", "hex", "full", 20, 250)]
     cfgs = {}
     for i, (cfgfile, label, geom, symmetry, ntr, nev) in enumerate(plans):
         if cfgfile not in cfgs:
